@@ -2,7 +2,7 @@
 import core
 import gen
 from core import PANIC, Some, opt
-from props.common import default_encode, default_decode, split_range, carry_count, chain_class
+from props.common import thorough_aux, default_encode, default_decode, split_range, carry_count, chain_class
 
 PROP = 'C01'
 BIN = 'c01'
@@ -157,3 +157,6 @@ REQUIRED = ['add:overflow-above', 'sub:overflow-below', 'carry-in decides flag (
 
 def floors(st, tier):
     return ['class %r never observed' % c for c in REQUIRED if st['classes'].get(c, 0) == 0]
+
+
+extra_passes = thorough_aux('props.c01', ('miri',))
